@@ -313,7 +313,11 @@ fn gen_source(rng: &mut Rng, big: bool) -> (String, &'static str, bool) {
     o.crlf = rng.chance(1, 8);
     o.unicode = rng.chance(1, 4);
     let (p, _) = jsgen::gen_program(rng, o);
-    match rng.below(21) {
+    match rng.below(24) {
+        21..=23 => {
+            let n = rng.range(1, 6);
+            (jsgen::gen_zoo(rng, n), "syntax-zoo", true)
+        }
         0..=10 => (p, "valid", true),
         11 | 12 => {
             let n = rng.range(1, 6);
